@@ -51,7 +51,7 @@ func init() {
 	reg("C02", propCfg{Quick: tierCfg{Checks: 200000, Timeout: 8 * m}, Thor: tierCfg{Checks: 3000000, Timeout: 60 * m, FuzzTime: 3 * m}, Fuzz: []string{"FuzzParse"}})
 	reg("C03", propCfg{Quick: tierCfg{Checks: 200000, Timeout: 8 * m}, Thor: tierCfg{Checks: 2000000, Timeout: 60 * m, FuzzTime: 3 * m}, Fuzz: []string{"FuzzBuild"}})
 	reg("C04", propCfg{Quick: tierCfg{Checks: 6000, Timeout: 8 * m}, Thor: tierCfg{Checks: 500000, Timeout: 60 * m}})
-	reg("C05", propCfg{NeedCLI: true, Quick: tierCfg{Checks: 480, Timeout: 8 * m}, Thor: tierCfg{Checks: 40000, Timeout: 60 * m}})
+	reg("C05", propCfg{NeedCLI: true, Quick: tierCfg{Checks: 2000, Timeout: 8 * m}, Thor: tierCfg{Checks: 40000, Timeout: 60 * m}})
 	reg("C06", propCfg{Quick: tierCfg{Checks: 5000, Timeout: 8 * m}, Thor: tierCfg{Checks: 400000, Timeout: 60 * m}})
 	reg("C07", propCfg{Quick: tierCfg{Checks: 3000, Timeout: 8 * m}, Thor: tierCfg{Checks: 300000, Timeout: 60 * m}})
 	reg("C08", propCfg{Quick: tierCfg{Checks: 5000, Timeout: 8 * m}, Thor: tierCfg{Checks: 400000, Timeout: 60 * m}})
